@@ -1,0 +1,14 @@
+//go:build verif
+
+package main
+
+// verifReloadGate, when set by a harness, is called at the two points of a config reload
+// ("started": the new config is running and the old one has not been stopped yet;
+// "stopped": the old config has been stopped). It may block.
+var verifReloadGate func(stage string)
+
+func vreload(stage string) {
+	if f := verifReloadGate; f != nil {
+		f(stage)
+	}
+}
